@@ -201,11 +201,12 @@ def build_traces(path, tier, seed):
         f0 = float(rng.uniform(2.0 / (n * dt), 0.4 / dt))
         x = np.sin(2 * np.pi * f0 * t + rng.uniform(0, 2 * np.pi)) * rng.uniform(0.5, 3) + 0.05 * rng.standard_normal(n)
         x = x - np.mean(x)
-        if i % 4 == 3:
+        if i % 4 == 3 and i % 5 != 1:
             x = x + 5.0          # the mean dominates: the largest-amplitude bin is the zero-frequency bin (period 1/0)
         if i % 5 == 1:
-            # records in extreme units: the amplitudes are ordinary doubles, their squares are not (2^-560 .. 2^520)
-            x = x * float(2.0 ** rng.choice([-560, -530, 505, 520]))
+            # records in extreme units: the amplitudes are ordinary doubles, their squares are not (2^-560 .. 2^520); tiny and huge
+            # units alternate, so that every run has both
+            x = x * float(2.0 ** [-560, 520, -530, 505][(i // 5) % 4])
         o = eqsig.AccSignal(x, dt)
         # transform length: default, extra powers of two, explicit even / odd n (the dominant period is read off THAT grid)
         nsel = i % 5 if i < 10 else int(rng.integers(5))          # every way of fixing the transform length at least twice
